@@ -26,11 +26,11 @@ ASSUMPTIONS = [
     "thorough tier additionally observes every Screen constructed by the repository's own test-suite",
 ]
 REQUIRED = {
-    "fresh_checked": {"quick": 1500, "thorough": 20000},
-    "superset_checked": {"quick": 800, "thorough": 10000},
-    "rejections_checked": {"quick": 300, "thorough": 4000},
+    "fresh_checked": {"quick": 6000, "thorough": 60000},
+    "superset_checked": {"quick": 3000, "thorough": 30000},
+    "rejections_checked": {"quick": 2000, "thorough": 20000},
 }
-N_CASES = {"quick": 3200, "thorough": 64000}
+N_CASES = {"quick": 8000, "thorough": 96000}
 
 
 def abstract(kw, screen):
